@@ -5,15 +5,17 @@ meta (out dir /tmp/wt/r2_<PID>_out/meta.json) -> selftest/refactors/<PID>_s<k>/{
 import json, os, shutil, subprocess, sys
 VERIF = os.path.dirname(os.path.dirname(os.path.abspath(__file__)))
 stage, first = sys.argv[1], json.load(open(sys.argv[2]))
+letter = sys.argv[3] if len(sys.argv) > 3 else 's'
+battery = {'s': 2, 't': 3}.get(letter, 2)
 rd = os.path.join(VERIF, 'selftest', 'refactors')
 head = subprocess.run(['git', '-C', '/repo', 'rev-parse', '--short', 'HEAD'], capture_output=True, text=True).stdout.strip()
 for rid in sorted(os.listdir(stage)):
-    pid, k = rid.split('_s')
+    pid, k = rid.split('_' + letter)
     dst = os.path.join(rd, rid)
     os.makedirs(dst, exist_ok=True)
     shutil.copy(os.path.join(stage, rid, 'patch.diff'), os.path.join(dst, 'patch.diff'))
     am = {}
-    mp = '/tmp/wt/r2_%s_out/meta.json' % pid
+    mp = '/tmp/wt/r%d_%s_out/meta.json' % (battery, pid)
     if os.path.exists(mp):
         try:
             am = json.load(open(mp))
@@ -29,9 +31,9 @@ for rid in sorted(os.listdir(stage)):
     elif isinstance(am, list):
         hit = [r for r in am if isinstance(r, dict) and str(r.get('file', r.get('patch', ''))).endswith('refactor_%s.diff' % k)]
         entry = hit[0] if hit else {'all': am}
-    meta = {'id': rid, 'property': pid, 'battery': 2,
+    meta = {'id': rid, 'property': pid, 'battery': battery,
             'author': 'independent sub-agent given the property text and its anchors, asked for behaviour-preserving refactorings of kinds other than renaming / reordering; nothing from /verif. '
-                      'Written after the checks had been hardened on battery 1 (the *_r* directories): battery 2 measures how the checks generalise to refactorings they were not tuned on',
+                      'Written after the checks had been hardened on the earlier batteries (*_r* = battery 1, *_s* = battery 2, *_t* = battery 3): the first-run result of each battery (FIRST_RUN.json) measures how the checks generalise to refactorings they were not tuned on',
             'base_commit': head, 'agent_meta': entry}
     json.dump(meta, open(os.path.join(dst, 'meta.json'), 'w'), indent=1)
 fp = os.path.join(rd, 'FIRST_RUN.json')
